@@ -267,7 +267,7 @@ def cli_stage(chk, exe):
     echo = b"".join([E("LDBM", 1), E("LDAC", 0), E("STAI", 2), E("LDAC", 2), E("OPR", 3),                                   # read stdin
                      E("LDAM", 1), E("LDAI", 1), E("LDBM", 1), E("STAI", 2), E("LDAC", 0), E("STAI", 3), E("LDAC", 1), E("OPR", 3)])  # echo
     progs = {
-        "echo7.bin": (echo + b"".join([E("LDBM", 1), E("LDAC", 7), E("STAI", 2), E("LDAC", 0), E("OPR", 3)]), b"Q"),
+        "echo7.bin": (echo + b"".join([E("LDBM", 1), E("LDAC", 7), E("STAI", 2), E("LDAC", 0), E("OPR", 3)]), b"QRSTUVWXYZ\n"),
         "exitm2.bin": (b"".join([E("LDBM", 1), bytes([0xFF, 0x3E]), E("STAI", 2), E("LDAC", 0), E("OPR", 3)]), b""),          # exit(-2)
         "exit256.bin": (b"".join([E("LDBM", 1), E("LDAC", 256), E("STAI", 2), E("LDAC", 0), E("OPR", 3)]), b""),               # exit(256)
         "echoeof.bin": (echo + b"".join([E("LDBM", 1), E("LDAC", 0), E("STAI", 2), E("LDAC", 0), E("OPR", 3)]), b""),           # echo at end of input
@@ -278,7 +278,11 @@ def cli_stage(chk, exe):
         image(name, code)
         open(os.path.join(d, "in.dat"), "wb").write(inp)
         try:
-            r = subprocess.run([hexsim, name], cwd=d, input=inp, capture_output=True, timeout=60)
+            # standard input is the (seekable) file itself, as in `hexsim p.bin < in.dat`: where the run leaves the file
+            # position is how much input it consumed
+            with open(os.path.join(d, "in.dat"), "rb") as fin:
+                r = subprocess.run([hexsim, name], cwd=d, stdin=fin, capture_output=True, timeout=60)
+                sim_pos = os.lseek(fin.fileno(), 0, os.SEEK_CUR)
         except subprocess.TimeoutExpired:
             raise hv.Infra("hexsim executable timed out on " + name)
         rc, o, e, _ = hv.run([exe, "cli", name, "in.dat", "tb.out", "5"], cwd=d, timeout=300)
@@ -294,6 +298,8 @@ def cli_stage(chk, exe):
             why = "%s: process status %s (hexsim) vs %s (hextb)" % (name, r.returncode, tb.get("status"))
         elif out != r.stdout:
             why = "%s: standard output after the banner %r (hextb) vs %r (hexsim)" % (name, out, r.stdout)
+        elif tb.get("input_position") != sim_pos:
+            why = "%s: input consumed from a redirected file: %s bytes (hextb) vs %s bytes (hexsim) of %d" % (name, tb.get("input_position"), sim_pos, len(inp))
         if why:
             break
     chk.native.append({"stage": "hexsim executable vs hextb.cpp's own main() in a child process: status and standard output after the banner", "programs": n, "ok": not why, "why": why})
